@@ -21,4 +21,5 @@ def layout_family(tier='quick'):
     out.append(T('l:empty_pad', 'root packet Root {\n    @leftPad()\n    char[4] a,\n    @rightPad()\n    char[2] b,\n}\n'))
     out.append(T('l:options_comments', 'options {\n    // first\n    LittleEndian = true; // le\n    // second\n    GoPackage = "m" // no semi\n}\n\nroot packet Root {\n    u8 a,\n}\n'))
     out.append(T('l:inline_comments', 'root packet Root {\n    repeat Sub { // open\n        // inner lead\n        u8 x, // inner trail\n        Deep {\n            u8 y, // deep\n        },\n    }, // close\n}\n'))
+    out.append(T('l:percent', 'root packet Root {\n    u8 load, // 100% of capacity, rate in %d units %s\n    string s `50%% doc %v`,\n}\n'))
     return out
